@@ -174,7 +174,33 @@ func checkC19(p *core.Program, r *core.Report) {
 	}
 	// the re-announce is conditional on data being present (announcement active)
 	// ---- R2
-	for _, f := range []*ssa.Function{callback, reconnect} {
+	// the callback, the reconnect loop and the package-local helpers they call synchronously
+	readers := []*ssa.Function{}
+	{
+		seenR := map[*ssa.Function]bool{}
+		var add func(f *ssa.Function, d int)
+		add = func(f *ssa.Function, d int) {
+			if f == nil || seenR[f] || f.Blocks == nil || p.PkgShort(f) != "mdns" {
+				return
+			}
+			seenR[f] = true
+			readers = append(readers, f)
+			if d == 0 {
+				return
+			}
+			core.EachInstr(f, func(in ssa.Instruction) {
+				if c, ok := in.(*ssa.Call); ok {
+					if t := c.Call.StaticCallee(); t != nil && t.Signature.Recv() != nil && core.NamedOf(recvType(t)) == prov && t.Name() != "Announce" && t.Name() != "Unannounce" {
+						add(t, d-1)
+					}
+				}
+			})
+		}
+		add(callback, 1)
+		add(reconnect, 1)
+	}
+	for _, f := range readers {
+		f := f
 		core.EachInstr(f, func(in ssa.Instruction) {
 			u, ok := in.(*ssa.UnOp)
 			if !ok || u.Op != token.MUL {
@@ -205,7 +231,7 @@ func checkC19(p *core.Program, r *core.Report) {
 	core.EachInstr(callback, func(in ssa.Instruction) {
 		if _, ok := in.(*ssa.Go); ok {
 			key := "reconnect spawn in " + p.FnName(callback) + " gated by manualShutdown"
-			if core.Guarded(in, manualFalseEdge) {
+			if core.Guarded(in, core.LiftEdge(manualFalseEdge, func(f *ssa.Function) bool { return p.PkgShort(f) == "mdns" }, 2)) {
 				r.OK(R2, key, p.Pos(in.Pos()), "only when not shut down manually")
 			} else {
 				r.Fail(R2, key, p.Pos(in.Pos()), "the reconnect loop is started without checking for a manual shutdown")
@@ -380,7 +406,7 @@ func checkC19(p *core.Program, r *core.Report) {
 								f2, _, v2 := core.StoredField(z)
 								return f2 == fListener && isBoolConst(v2, false)
 							}
-							if core.PathSearch(fn2, nil, func(z ssa.Instruction) bool { return z == y }, stopsListener, nil) != nil {
+							if !precededBy(p, fn2, y, stopsListener, 2) {
 								r.Fail(R4, k+" (reset)", p.Pos(y.Pos()), "the channel is dropped while the listener may still be running (listenerRunning is not cleared first): the next start makes a new channel the running listener does not read")
 							} else {
 								r.OK(R4, k+" (reset)", p.Pos(y.Pos()), "reset only after the listener was marked stopped")
